@@ -92,7 +92,7 @@ def acyclicSpec (n : Nat) (g : Graph) : Bool :=
 /-! ### clauses and the per-observation checks -/
 
 inductive Clause
-  | reachState | reachCheckExec | reachNotification | liveSet | cycleRejected | refusedUnchanged
+  | reachState | reachCheckExec | reachNotification | liveSet | cycleRejected | refusedUnchanged | edges
   deriving Repr, DecidableEq
 
 def Clause.name : Clause → String
@@ -102,6 +102,7 @@ def Clause.name : Clause → String
   | .liveSet => "graph_equals_live_set"
   | .cycleRejected => "cycle_is_rejected"
   | .refusedUnchanged => "refused_addition_leaves_graph_unchanged"
+  | .edges => "edges_equal_live_set"
 
 def Clause.ofAspect : Aspect → Clause
   | .state => .reachState | .checkExec => .reachCheckExec | .notification => .reachNotification
@@ -132,5 +133,71 @@ def specRuntimeAdd (n : Nat) (g : Graph) (new : List Dep) (accepted : Bool) (nde
   else if !accepted && !(List.range n).all (fun v => ndeps v == cnt g v) then some .refusedUnchanged
   else if accepted && !(List.range n).all (fun v => ndeps v == cnt gAll v) then some .liveSet
   else none
+
+/-! ### "graph edges child->parent and parent->child": what the checkables report equals the live set -/
+
+/-- ascending, duplicate-free. -/
+def ascInsert (k : Nat) : List Nat → List Nat
+  | [] => [k]
+  | x :: xs => if k == x then x :: xs else if k < x then k :: x :: xs else x :: ascInsert k xs
+
+def ascSet (l : List Nat) : List Nat := l.foldr ascInsert []
+
+/-- the parents of `v`: parents of the live dependencies whose child is `v`. -/
+def parentsSpec (live : List (Nat × Dep)) (v : Nat) : List Nat :=
+  ascSet ((live.filter (fun x => x.2.child == v)).map (·.2.parent))
+
+/-- the children of `v`: children of the live dependencies whose parent is `v`, `v` itself left out. -/
+def childrenSpec (live : List (Nat × Dep)) (v : Nat) : List Nat :=
+  ascSet (((live.filter (fun x => x.2.parent == v)).map (·.2.child)).filter (fun c => c != v))
+
+/-- the reverse dependencies of `v`: the live dependencies (ids) whose parent is `v`. -/
+def reverseSpec (live : List (Nat × Dep)) (v : Nat) : List Nat :=
+  ascSet ((live.filter (fun x => x.2.parent == v)).map (·.1))
+
+/-- One observation of `GetParents()`, `GetChildren()`, `GetReverseDependencies()` of every checkable (ascending
+    node / dependency ids): nothing stale, nothing missing, whatever additions and removals came before. -/
+def specEdges (n : Nat) (live : List (Nat × Dep)) (par chi rev : Nat → List Nat) : Option Clause :=
+  if (List.range n).all (fun v => par v == parentsSpec live v && chi v == childrenSpec live v && rev v == reverseSpec live v)
+  then none else some .edges
+
+/-! ### whole histories -/
+
+/-- candidate ranking by relaxation (longest dependency chain above each checkable, capped); only a
+    *candidate*: `rankOk` decides whether it is a certificate. -/
+def relaxPass (deps : List Dep) (lvl : Array Nat) : Array Nat × Bool :=
+  deps.foldl (fun (acc : Array Nat × Bool) d =>
+    let lp := acc.1[d.parent]?.getD 0
+    let lc := acc.1[d.child]?.getD 0
+    if lc ≤ lp && lp < 400 && d.child < acc.1.size then (acc.1.set! d.child (lp + 1), true) else acc) (lvl, false)
+
+def relaxN (deps : List Dep) : Nat → Array Nat → Array Nat
+  | 0, lvl => lvl
+  | k + 1, lvl => let r := relaxPass deps lvl; if r.2 then relaxN deps k r.1 else r.1
+
+def rankArr (n : Nat) (g : Graph) : Array Nat := relaxN g.deps 259 (Array.replicate n 0)
+
+/-- the scope of the "reachable exactly when" equation: the live graph is acyclic and at most 256 levels
+    deep (certified by the candidate ranking) and every dependency's child is one of the `n` checkables.
+    Outside (graphs built behind the cycle checker's back, chains beyond the recursion limit) the
+    property does not say what `IsReachable` answers. -/
+def queryInScope (n : Nat) (g : Graph) : Bool :=
+  let arr := rankArr n g
+  rankOk g n (fun v => arr[v]?.getD 0) && g.deps.all (fun d => d.child < n)
+
+/-- the property on ONE recorded step, given the configuration declared by the steps before it. -/
+def specObs (n : Nat) (c : Cfg) : HObs → Option Clause
+  | .load batch acc nd => specRuntimeAdd n c.graph (batch.map (·.2)) acc nd
+  | .query obs nd => if queryInScope n c.graph then specQuery n c.graph obs nd else none
+  | .edges par chi rev => specEdges n c.live par chi rev
+  | _ => none
+
+/-- the property on a whole recorded history: the first violated clause, if any. -/
+def specTrace (n : Nat) : Cfg → List HObs → Option Clause
+  | _, [] => none
+  | c, o :: os =>
+    match specObs n c o with
+    | some cl => some cl
+    | none => specTrace n (c.next o) os
 
 end Icinga.C07
